@@ -34,10 +34,10 @@ def commentKey : List Char := ['#', 'c', 'o', 'm', 'm', 'e', 'n', 't']
 def attrsJV (attrs : List (List Char × List Char)) (text : Option (List Char)) : JV :=
   if attrs.isEmpty && text.isNone then .null
   else
-    let all : List (List Char × List Char) := match text with
-      | none => attrs
-      | some t => (textKey, t) :: attrs
-    .obj (all.foldl (fun a kv => insertKV kv.1 (.str kv.2) a) [])
+    let m := (attrs.map (fun kv => (kv.1, JV.str kv.2))).foldl (fun a kv => insertKV kv.1 kv.2 a) []
+    match text with
+    | none => .obj m
+    | some t => .obj (insertKV textKey (.str t) m)
 
 mutual
   def toArr : XNode → JV
